@@ -4,10 +4,13 @@ C13 — structural tie of `encodeXterm`, `handleMouse` and the forwarding arms o
 -/
 import VaxisModel.Model.TermBody
 import VaxisModel.Lemmas.TermBodyPin
+import VaxisModel.Lemmas.TermBodyEval
 
 namespace VaxisModel.Props.C13Body
 open VaxisModel.Model.GoBody VaxisModel.Model.GoInterp VaxisModel.Model.Key VaxisModel.Model.TermBody
 open VaxisModel.Model.TermKey VaxisModel.Model.TermMouse VaxisModel.Model.Mouse VaxisModel.Gen.Keys
+
+def exUni : Uni := ⟨fun _ => false, fun _ => false, fun _ => false, fun _ => false, fun _ => false, id, id, fun _ _ => false⟩
 
 /-- Every node of the three bodies was translated (nothing degraded to `.unknown`). -/
 theorem term_bodies_fully_recognised :
@@ -17,5 +20,57 @@ theorem term_bodies_fully_recognised :
 theorem facts_encodeXterm_body : VaxisModel.Gen.TermBody.encodeXtermBody = VaxisModel.Lemmas.TermBodyPin.encodeXtermBody := rfl
 theorem facts_handleMouse_body : VaxisModel.Gen.TermBody.handleMouseBody = VaxisModel.Lemmas.TermBodyPin.handleMouseBody := rfl
 theorem facts_update_body : VaxisModel.Gen.TermBody.updateBody = VaxisModel.Lemmas.TermBodyPin.updateBody := rfl
+
+/-! ## The interpreted extracted bodies are the hand-written model
+
+`encodeXtermGen`, `handleMouseGen`, `updateGen` (Model/TermBody.lean) run the bodies regenerated
+from widgets/term on this run; these theorems say that for **every** input they give what the
+hand-written model gives — so `key_roundtrip`, `mouse_gated`, `paste_gated`, … are theorems about
+the decision structure of the code itself (order of the table look-ups and early returns, every
+guard, the `Sprintf` formats, which mode flag selects which table). -/
+
+open VaxisModel.Lemmas.TermBodyEval VaxisModel.Lemmas.GoInterp
+
+/-- **encodeXterm_body_eq_model**: all keys, all `unicode` oracles, both key modes. -/
+theorem encodeXterm_body_eq_model (u : Uni) (key : Key) (deckpam decckm : Bool) :
+    encodeXtermGen u key deckpam decckm = some (encodeXterm u key deckpam decckm) := by
+  by_cases h0 : key.mods &&& ModShift ||| key.mods &&& ModAlt ||| key.mods &&& ModCtrl = 0
+  · cases deckpam <;> cases decckm
+    · exact encodeXterm_body_plain_false_false u key h0
+    · exact encodeXterm_body_plain_false_true u key h0
+    · exact encodeXterm_body_plain_true_false u key h0
+    · exact encodeXterm_body_plain_true_true u key h0
+  · exact encodeXterm_body_mods u key deckpam decckm h0
+
+/-- **handleMouse_body_eq_model**: all mode states, all buttons / positions / event types; both
+    the bytes `handleMouse` writes itself (alternate scroll) and the string it returns. -/
+theorem handleMouse_body_eq_model (u : Uni) (md : Modes) (m : Mouse) :
+    handleMouseGen u md m = some (handleMouse md m) := handleMouse_body u md m
+
+set_option maxHeartbeats 400000 in
+set_option maxRecDepth 8000 in
+set_option linter.unusedSimpArgs false in
+/-- **update_body_eq_model**: the forwarding arms of `Model.Update` — a key is encoded with
+    `(deckpam, decckm)` in that order and written; a paste boundary is written iff mode 2004; a mouse
+    event writes what `handleMouse` wrote followed by what it returned. -/
+theorem update_body_eq_model (u : Uni) (md : Modes) (ev : Event) :
+    updateGen u md ev = some (update u md ev) := by
+  unfold updateGen VaxisModel.Gen.TermBody.updateBody
+  cases ev <;>
+  simp only [Ss.ofList, Es.ofList, Cs.ofList, execSs, execS, eventValue, lhsNames, evalEs, evalE,
+    VaxisModel.Model.GoInterp.bind, VaxisModel.Model.KeyBody.keyFields, mouseFields, modeEnv,
+    List.lookup, List.map, List.append, String.reduceEq, String.reduceBEq, String.reduceAppend,
+    reduceIte, or_false, false_or, or_self, List.cons_append, List.nil_append,
+    andThen_norm, andThen_ret, andThen_err, Bool.false_eq_true, callStmt_lock, callStmt_invalidate, noops_unlock, ctx] <;>
+  simp only [execTy, tyHit, String.reduceBEq, Bool.or_false, Bool.false_or, Bool.or_true, Bool.false_eq_true, reduceIte] <;>
+  simp only [execSs, execS, lhsNames, evalEs, evalE, VaxisModel.Model.GoInterp.bind,
+    assignVals, hasErr, bindAll, List.lookup, List.map, List.append, String.reduceEq, String.reduceBEq, String.reduceAppend,
+    reduceIte, or_false, false_or, or_self, List.length, Option.map, List.cons_append, List.nil_append, Bool.or_false, List.any,
+    andThen_norm, andThen_ret, andThen_err, andThen_ite, afterSwitch_ite, afterSwitch_ret, afterSwitch_norm, branch_bool,
+    Bool.false_eq_true, callStmt_write, updateCalls, encodeXterm_body_eq_model, handleMouse_body_eq_model,
+    outOnly_ite, outOnly_ret, outOnly_norm, update, List.append_nil]
+  all_goals (split <;> rfl)
+
+example : updateGen VaxisModel.Props.C13Body.exUni { paste := true } .pasteEnd = some [27, 91, 50, 48, 49, 126] := by decide +kernel
 
 end VaxisModel.Props.C13Body
